@@ -4954,8 +4954,12 @@ def _from_buffers_key():
 def _wrap_record_with_virtual(input_form):
     def modify(form):
         if form["class"] == "RecordArray":
-            for item in form["contents"].values():
-                modify(item)
+            if isinstance(form["contents"], dict):
+                keys = list(form["contents"].keys())
+            else:
+                keys = list(range(len(form["contents"])))
+            for key in keys:
+                modify(form["contents"][key])
         elif form["class"].startswith("UnionArray"):
             for item in form["contents"]:
                 modify(item)
@@ -4963,7 +4967,7 @@ def _wrap_record_with_virtual(input_form):
             modify(form["content"])
 
         if form["class"] == "RecordArray":
-            for key in form["contents"].keys():
+            for key in keys:
                 form["contents"][key] = {
                     "class": "VirtualArray",
                     "has_length": True,
